@@ -1762,6 +1762,26 @@ func genFanIn(prop string) func(tier string, seed uint64, idx int) interface{} {
 			if r.Bool(1, 3) {
 				topic = "f/shared"
 			}
+			if r.Bool(1, 5) {
+				// pipelined QoS 2: a few complete exchanges (the head of the
+				// broker's in-flight queue leaves slot 0), then more PUBLISH
+				// packets in flight than the queue's 16 slots, released in order
+				for i := 1 + r.Intn(6); i > 0; i-- {
+					x.seq[ci]++
+					cl.Ops = append(cl.Ops, Op{K: "pub", Topic: topic, QoS: 2, PID: x.nextPID(ci), Size: 8 + r.Intn(60), Seq: x.seq[ci]})
+				}
+				var ids []uint16
+				for i := 17 + r.Intn(10); i > 0; i-- {
+					x.seq[ci]++
+					id := x.nextPID(ci)
+					ids = append(ids, id)
+					cl.Ops = append(cl.Ops, Op{K: "pub", Topic: topic, QoS: 2, PID: id, Size: 8 + r.Intn(60), Seq: x.seq[ci], NoRel: true, NoWait: r.Bool(1, 2)})
+				}
+				for _, id := range ids {
+					cl.Ops = append(cl.Ops, Op{K: "pubrel", PID: id, NoWait: r.Bool(1, 3)})
+				}
+				n = r.Intn(4)
+			}
 			for i := 0; i < n; i++ {
 				x.seq[ci]++
 				sz := x.size()
